@@ -53,8 +53,8 @@ def paren(e):
     return {"k": "paren", "e": e}
 
 
-def call(f, args):
-    return {"k": "call", "f": f, "as": args}
+def call(f, args, tc=False):
+    return {"k": "call", "f": f, "as": args, "tc": bool(tc and args)}
 
 
 def idx(n, ixs):
@@ -65,12 +65,12 @@ def slc(o, s, e, st, c2):
     return {"k": "slice", "o": o, "s": s, "e": e, "st": st, "c2": c2}
 
 
-def lst(es):
-    return {"k": "list", "es": es}
+def lst(es, tc=False):
+    return {"k": "list", "es": es, "tc": bool(tc and es)}
 
 
-def mp(ks, vs):
-    return {"k": "map", "ks": ks, "vs": vs}
+def mp(ks, vs, tc=False):
+    return {"k": "map", "ks": ks, "vs": vs, "tc": bool(tc and ks)}
 
 
 def assign(op, ls, rs):
@@ -148,9 +148,9 @@ def expr(rng, d):
             return b if b["k"] not in ("float", "list", "str") else lit_int(2)
         return slc(base, ok(s), ok(e), ok(st), c2)
     if r < 0.95:
-        return lst([expr(rng, d - 1) for _ in range(rng.randint(0, 3))])
+        return lst([expr(rng, d - 1) for _ in range(rng.randint(0, 3))], tc=rng.random() < 0.3)
     n = rng.randint(0, 2)
-    return mp([lit_str(b"k%d" % i) for i in range(n)], [expr(rng, d - 1) for _ in range(n)])
+    return mp([lit_str(b"k%d" % i) for i in range(n)], [expr(rng, d - 1) for _ in range(n)], tc=rng.random() < 0.3)
 
 
 def block(rng, d, in_loop):
@@ -214,6 +214,22 @@ def gen_trees(quick, seed):
     for o in BINOPS:
         add([binop(o, lit_int(-1, "-1"), lit_int(-2, "-2"))], "signed literals as operands")
         add([binop(o, lit_int(2), lit_int(-1, "-1"))], "signed right operand")
+    # every kind of left operand before every binary operator with an unsigned and a signed numeric right operand (whether a sign
+    # belongs to the number or is the operator must not depend on what kind of token came before, nor on the blanks around it)
+    lefts = [ident("a"), {"k": "id", "n": "q", "sp": "`q`"}, {"k": "id", "n": "a b", "sp": "`a b`"}, lit_str(b"s"), lit_str(b"q", "'q'"),
+             lit_str(b"m", '"""m"""'), call("f", []), idx("a", [lit_int(0)]), paren(ident("a")), lit_bool(True), dict(NIL), lit_int(3), lit_float("1.5"),
+             {"k": "attr", "parts": ["a", "b"]}, slc(ident("a"), lit_int(1), NONE, NONE, False)]
+    for l in lefts:
+        for o in BINOPS:
+            add([assign("=", [ident("x")], [binop(o, l, lit_int(7))])], "left operand kind x operator x unsigned number")
+            add([assign("=", [ident("x")], [binop(o, l, lit_int(-7, "-7"))])], "left operand kind x operator x signed number")
+        add([call("f", [binop("-", l, lit_int(2)), binop("+", l, lit_float("0.5"))])], "left operand kind, as arguments")
+        add([assign("=", [ident("x")], [idx("a", [binop("-", l, lit_int(1))])])], "left operand kind, inside an index")
+    # a trailing comma before the closing bracket of a list / map literal, one line and spread over lines (the layouts do that)
+    for es in ([lit_int(1)], [lit_int(1), lit_int(2)], [lst([lit_int(1)], tc=True), ident("a")]):
+        add([assign("=", [ident("x")], [lst(es, tc=True)])], "list literal with a trailing comma")
+        add([call("f", [lst(es, tc=True), lst(es)])], "list literal with a trailing comma as an argument")
+    add([assign("=", [ident("m")], [mp([lit_str(b"a"), lit_str(b"b")], [lit_int(1), lst([lit_int(2)], tc=True)], tc=True)])], "map literal with a trailing comma")
     # the 24 slice forms (12 shapes x identifier / other base)
     for base in (ident("a"), lit_str(b"abc"), call("f", []), lst([lit_int(1)])):
         for hs, he, c2, hst in itertools.product([0, 1], [0, 1], [0, 1], [0, 1]):
